@@ -10,6 +10,7 @@ Shapes(inc, comp) == {
   G("rectangle", <<16>>, <<16>>, <<12, 8>>, 40, inc, comp),
   G("polygon", <<0, 16, 8>>, <<0, 0, 12>>, <<>>, 0, inc, comp),
   G("polygon", <<4, 20, 24, 12, 0>>, <<4, 0, 16, 28, 12>>, <<>>, 0, inc, comp),
+  G("regpoly4", <<128>>, <<96>>, <<10>>, 0, inc, comp),                                 \* regular polygons are written as polygons
   G("polygon", <<0, 16, 16, 0>>, <<0, 0, 12, 12>>, <<>>, 0, inc, comp)}          \* axis-aligned box: the last edge is horizontal
 Unsupported == {[cls |-> "line"], [cls |-> "text"], [cls |-> "rannulus"], [cls |-> "compound"], [cls |-> "sky"]}
 NC == -1
